@@ -71,6 +71,22 @@ pub fn write_lzma2_tweaked(
     want_tables: bool,
     marker_chunk: Option<(usize, u32)>,
 ) -> Result<EncodedLzma2, String> {
+    write_lzma2_full(chunks, want_tables, marker_chunk, true)
+}
+
+/// Serialise without enforcing the sequencing rules (first chunk resets the
+/// dictionary; new properties after a dictionary reset). lzma-rs accepts such
+/// sequences, liblzma does not.
+pub fn write_lzma2_lenient(chunks: &[Chunk]) -> Result<EncodedLzma2, String> {
+    write_lzma2_full(chunks, false, None, false)
+}
+
+fn write_lzma2_full(
+    chunks: &[Chunk],
+    want_tables: bool,
+    marker_chunk: Option<(usize, u32)>,
+    strict: bool,
+) -> Result<EncodedLzma2, String> {
     let mut enc = SymEncoder::new(Props::new(0, 0, 0));
     let mut bytes = Vec::new();
     let mut layout = Vec::new();
@@ -84,7 +100,7 @@ pub fn write_lzma2_tweaked(
                 if data.is_empty() || data.len() > 65536 {
                     return Err(format!("chunk {}: raw size {}", ci, data.len()));
                 }
-                if need_dict_reset && !reset_dict {
+                if strict && need_dict_reset && !reset_dict {
                     return Err(format!("chunk {}: dictionary reset required", ci));
                 }
                 if *reset_dict {
@@ -108,10 +124,10 @@ pub fn write_lzma2_tweaked(
                 });
             }
             Chunk::Lzma { reset, props, ops } => {
-                if need_dict_reset && *reset != Reset::All {
+                if strict && need_dict_reset && *reset != Reset::All {
                     return Err(format!("chunk {}: dictionary reset required", ci));
                 }
-                if need_props && (*reset as u8) < 2 {
+                if strict && need_props && (*reset as u8) < 2 {
                     return Err(format!("chunk {}: new properties required", ci));
                 }
                 if (*reset as u8) >= 2 && props.lc + props.lp > 4 {
